@@ -8,7 +8,8 @@ Local Open Scope Z_scope.
 
 (* (T) every helper found in the generated C is, term for term, the one the model generates,
    every literal in it is in the range of its C type; the compiler's is_type_inrange table is
-   the model's; a helper is emitted exactly for the pairs that need one; the flags of the
+   the model's; a narrow helper is emitted exactly for the pairs that need one (forallb over the
+   compiler's table) and the tables are not empty; the flags of the
    add_converted_val call sites and the library guards are the ones the model assumes *)
 Theorem C04_helpers_are_the_emitted_ones :
   (forall s d f, In (s, d, f) narrow_table -> narrow_fn s d = Some f /\ cfun_ok f = true) /\
@@ -18,6 +19,10 @@ Theorem C04_helpers_are_the_emitted_ones :
   deref_fn = deref_emitted /\
   (forall d s b, In (d, s, b) inrange_table -> needs_check d s = negb b) /\
   conv_sites = expected_sites /\
+  (forallb (fun '(d, s, b) =>
+     Bool.eqb (existsb (fun '(s', d', _) => ity_eqb s s' && ity_eqb d d') narrow_table) (negb b)) inrange_table = true /\
+   (50 <= Z.of_nat (length narrow_table) /\ 8 <= Z.of_nat (length bounds_table) /\
+    4 <= Z.of_nat (length idiv_table) /\ 4 <= Z.of_nat (length imod_table) /\ 64 <= Z.of_nat (length inrange_table))) /\
   (guard_span_at = lib_guard SpanAt /\ guard_vector_at = lib_guard VecAt /\
    guard_vector_insert = lib_guard VecInsert /\ guard_vector_remove = lib_guard VecRemove /\
    guard_vector_pop = lib_guard VecPop /\ guard_sequence_at = lib_guard SeqAt /\
@@ -43,10 +48,16 @@ Theorem C04_no_check_sound : forall d s, wf_ity d -> wf_ity s ->
 Proof. exact no_check_sound. Qed.
 Print Assumptions C04_no_check_sound.
 
-(* every implicit conversion site of the code generator is checked (call argument, declaration
-   incl. static and from a multiple-return call, single and multiple assignment, unpacking of a
-   multiple-return call, single and multiple return with or without pending defer, array / record /
-   record-array initializer lists, numeric for bounds): only the explicit cast is not *)
+(* every add_converted_val call of cgenerator.lua (the list is scraped on each run), except the
+   explicit cast, performs the checked conversion.  (That every implicit conversion goes through
+   add_converted_val is supported by a scrape - add_typed_val has that single caller - and by the
+   driver's site streams, not by a theorem.) *)
+Theorem C04_all_conversion_calls_checked :
+  forall v o f u, In (v, o, f, u) conv_sites -> (v, o) <> (3, 1) -> call_checked f u = true.
+Proof. exact conv_calls_all_checked. Qed.
+Print Assumptions C04_all_conversion_calls_checked.
+
+(* the same fact for the named sites the forking driver exercises *)
 Theorem C04_all_sites_checked : forall st, site_implicit st = true -> site_checked st = true.
 Proof. exact sites_all_checked. Qed.
 Print Assumptions C04_all_sites_checked.
@@ -80,6 +91,20 @@ Theorem C04_imod_check_iff : forall t a b, wf_ity t -> sgn t = true -> in_range 
   ccall Gnu (imod_fn t true) [a; b] = if b =? 0 then Opanic MSG_DIVZERO else Oval (a mod b).
 Proof. exact imod_fn_correct. Qed.
 Print Assumptions C04_imod_check_iff.
+
+(* `///` and `%%%` of signed integers: the full statement (tdiv_check_full: "division by zero"
+   diagnostic iff b = 0, the truncated quotient / remainder otherwise) is FALSE of the emitted code *)
+Theorem C04_tdiv_check_refuted : ~ tdiv_check_full.
+Proof. exact tdiv_check_refuted. Qed.
+Print Assumptions C04_tdiv_check_refuted.
+
+(* ... what does hold: defined and exact for a non-zero divisor other than min / -1 on int32/int64 *)
+Theorem C04_tdiv_check_partial : forall t a b, wf_ity t -> sgn t = true -> in_range t a -> in_range t b ->
+  b <> 0 -> (bits t < 32 \/ ~ (a = tmin t /\ b = -1)) ->
+  ccall Gnu (tdiv_fn t) [a; b] = Oval (wrap t (Z.quot a b)) /\
+  ccall Gnu (tmod_fn t) [a; b] = Oval (wrap t (Z.rem a b)).
+Proof. exact tdiv_check_partial. Qed.
+Print Assumptions C04_tdiv_check_partial.
 
 (* cast_wraps: explicit casts never trap; in gnu mode they are total and modular *)
 Theorem C04_cast_wraps : forall d x, wf_ity d -> explicit_cast Gnu d x = Oval (wrap d x).
